@@ -18,6 +18,9 @@ try:
         if flt and flt not in name:
             continue
         d = json.load(open(p))
+        if d.get("neutralised_by"):
+            print("%-8s skipped: no longer property-breaking since fix %s" % (name, d["neutralised_by"]))
+            continue
         sh("git -C %s reset -q --hard HEAD && git -C %s clean -fdq" % (wt, wt))   # apply --3way stages its result: checkout alone would keep it
         r = sh("git -C %s apply --3way %s/patch.diff" % (wt, os.path.dirname(p)))
         if r.returncode:
